@@ -104,7 +104,10 @@ Fixpoint run_op (depth : nat) (op : bytes) (input : arg) : arg :=
     obs_info (match i1 with
               | AL [alg; d; r; e] => certificate_public_key (arcs_of alg) (opt_bytes d) (opt_bytes r) (ecparams_of e)
               | _ => Err "asn1" end)
-  else if bytes_eqb op (bs "pgpkey") then obs_info (pgp_public_key (arg_bytes i0))
+  else if bytes_eqb op (bs "pgpkey") then
+    obs_info (match arg_list i0 with
+              | p :: subs => pgp_key_block (arg_bytes p) (map arg_bytes subs)
+              | [] => Err "no key" end)
   else if bytes_eqb op (bs "certspki") then
     (* getCertificateInfo: the "Public key" child built from the certificate's SubjectPublicKeyInfo *)
     obs_info (match i1 with
@@ -219,6 +222,13 @@ Definition check_spec (spec : arg) (obs : arg) : arg :=
           | [a] =>
               if negb (bytes_eqb a alg) then AS "wrong algorithm reported" else
               match (match size with
+                     | AL [AZ fb] =>        (* an elliptic-curve key: a size, if shown, is the field size *)
+                         match values_of (bs "Size") attrs with
+                         | [] => None
+                         | [s] => if bytes_eqb s (dec_of_Z fb ++ bs " bits") then None
+                                  else Some "a size is reported that is not the size of the key's curve"%string
+                         | _ => Some "size reported more than once"%string
+                         end
                      | AL [AB mag] =>
                          match values_of (bs "Size") attrs with
                          | [s] => if bytes_eqb s (dec_of_N (spec_bits mag) ++ bs " bits") then None
@@ -276,6 +286,22 @@ Definition check_C02 (op : bytes) (input impl : arg) : arg :=
     match arg_nth 0 impl with
     | AL [AZ 2%Z] => AS "ssh1.ParsePrivateKey panics"
     | _ => check_spec (last_arg input) (arg_nth 1 impl)
+    end
+  else if bytes_eqb op (bs "pgpkey") then
+    (* one expectation per key: the primary key's own attributes, then each subkey child *)
+    match impl with
+    | AL [AZ 0%Z; ia] =>
+        let i := info_of_arg ia in
+        let keys := Info (i_desc i) (i_attrs i) [] :: i_children i in
+        let specs := arg_list (arg_nth 1 input) in
+        if negb (Nat.eqb (length keys) (length specs)) then AS "a key of the block is not described"
+        else
+          match filter (fun v => negb (arg_eqb v (AL [])))
+                  (map (fun ks => check_spec (snd ks) (AL [AZ 0%Z; arg_of_info (fst ks)])) (combine keys specs)) with
+          | v :: _ => v
+          | [] => AL []
+          end
+    | _ => check_spec (arg_nth 0 (arg_nth 1 input)) impl
     end
   else if bytes_eqb op (bs "e2e") then check_spec (last_arg (arg_nth 1 input)) impl
   else if curve_matcher_panics op (arg_nth 1 input) then AL []
